@@ -37,6 +37,8 @@ func RunHistory(t *rapid.T, prof *Profile, mons ...Monitor) {
 			w.Flags["vesting-account"] = true
 		} else if strings.HasPrefix(n, "prefix-ids{") {
 			w.Flags["prefix-ids-genesis"] = true
+		} else if strings.HasPrefix(n, "legacy-batches{") {
+			w.Flags["legacy-genesis-batches"] = true
 		}
 	}
 	prelude := prof.Prelude
